@@ -48,6 +48,8 @@ def run(c):
             if ch:
                 probs.append("IsSet of other fields changed: " + ",".join(ch))
             for k in ("t1", "t2", "js"):
+                if o.get(k) == "n/a" and k == "js":
+                    c.count("skipped:json-round-trip-fails-before-the-call")
                 if o.get(k) not in ("same", "n/a"):
                     probs.append("%s round trip: %s" % (k, o.get(k)[:40]))
             if o["w1b"] == "werr":
